@@ -41,12 +41,14 @@ type LexerContext interface {
 }
 
 type CTELexerContext struct {
-	verbatimSentinel string
+	// Kept as runes: the input stream's LA() yields code points, not bytes
+	verbatimSentinel []rune
 	verbatimIndex    int
 }
 
 func (_this *CTELexerContext) RecordVerbatimSentinel(text string) {
-	_this.verbatimSentinel = text
+	_this.verbatimSentinel = []rune(text)
+	_this.verbatimIndex = 0
 }
 
 func (_this *CTELexerContext) IsAtVerbatimSentinel(stream antlr.CharStream) bool {
